@@ -38,7 +38,7 @@ func main() {
 	}
 	k, n := 4, 4
 	if r.Thorough() {
-		k, n = 5, 8
+		k, n = 5, 6
 	}
 	if *kflag > 0 {
 		k = *kflag
@@ -123,6 +123,26 @@ func main() {
 	x.Run()
 	fmt.Printf("explore: nodes=%d txs=%d states=%d memo_hits=%d graph_checks=%d stale_merkle_links=%d mismatches=%d in %.1fs\n",
 		x.Nodes.Load(), x.Txs.Load(), x.States.Load(), x.MemoHits.Load(), checks, merkle, len(x.Mis), time.Since(t0).Seconds())
+	// aborted transactions of the two-realm family: print the minimal history per abort class (observation)
+	{
+		best := map[string]rx.Mismatch{}
+		cnt := map[string]int{}
+		for _, a := range x.Aborts {
+			cnt[a.Class]++
+			b, ok := best[a.Class]
+			if !ok || len(a.Seq) < len(b.Seq) || (len(a.Seq) == len(b.Seq) && (len(a.Hist) < len(b.Hist) || (len(a.Hist) == len(b.Hist) && strings.Join(a.Hist, "|") < strings.Join(b.Hist, "|")))) {
+				best[a.Class] = a
+			}
+		}
+		for c, a := range best {
+			fmt.Printf("OBSERVATION aborted tx (%d): class=%q minimal history %s txs=%v\n", cnt[c], c, a.Fam, a.Hist)
+		}
+		cls := map[string]int{}
+		for _, m := range x.Mis {
+			cls[m.Class]++
+		}
+		fmt.Println("mismatch classes:", cls)
+	}
 	x.ReportOnly("graph:")
 	if merkle > 0 {
 		r.Outcome("obs:stale-merkle-link(RefValue.Hash of an owned child != child's stored hash)")
